@@ -100,20 +100,25 @@ class Templates:
 
 
 def _stack_in_dask_expr(logpath):
+    """(kind, inside, where): kind = cpu | wall | none."""
     try:
         txt = open(logpath).read()
     except OSError:
-        return False, ""
-    i = txt.rfind("Timeout (")
+        return "none", False, ""
+    i = txt.rfind("CPU-Timeout (")
+    kind = "cpu"
     if i < 0:
-        return False, txt[-1500:]
+        i = txt.rfind("Timeout (")
+        kind = "wall"
+    if i < 0:
+        return "none", False, txt[-1500:]
     tail = txt[i:]
     # faulthandler prints most recent call first
     m = re.findall(r'File "([^"]+)", line \d+ in (\S+)', tail)
-    for fn, func in m[:40]:
+    for fn, func in m[:60]:
         if "/dask_expr/" in fn:
-            return True, "%s:%s" % (os.path.basename(fn), func)
-    return False, tail[:1500]
+            return kind, True, "%s:%s" % (os.path.basename(fn), func)
+    return kind, False, tail[:1500]
 
 
 def run_one(tpl: Templates, prop, tier, run_seed, cap_s, spec=None):
@@ -128,17 +133,25 @@ def run_one(tpl: Templates, prop, tier, run_seed, cap_s, spec=None):
     pids = []
     try:
         res = ipc.call(hs, req, timeout=cap_s, sockdir=tpl.sockdir, want_pid=pids)
+        if res.get("verdict") == "child_lost":
+            lost_spec = res.get("spec")
+            raise ipc.PristineError(res.get("detail"))
     except ipc.PristineError as e:
+        if spec is None and "lost_spec" in locals():
+            spec = lost_spec
         for pid in pids:
             try:
                 os.killpg(pid, 9)
             except OSError:
                 pass
-        inside, where = _stack_in_dask_expr(logpath)
-        if inside:
+        kind, inside, where = _stack_in_dask_expr(logpath)
+        if kind == "cpu" and inside:
             res = {"verdict": "violation", "oracle": "timeout", "signature": "timeout@" + where,
-                   "detail": "no progress within %ss wall; innermost dask_expr frame %s" % (cap_s, where),
+                   "detail": "no result within the CPU-time budget; innermost dask_expr frame %s" % where,
                    "spec": spec}
+        elif kind == "wall":
+            # wall-clock backstop on a loaded machine: inconclusive, neither a verdict nor a harness defect
+            res = {"verdict": "wall_timeout", "detail": "wall backstop %ss hit (machine load); %s" % (cap_s, where[:200]), "spec": spec}
         else:
             res = {"verdict": "harness_error", "detail": "transport/timeout: %s | %s" % (e, where[-800:]), "spec": spec}
     if res.get("verdict") in ("harness_error",) and "traceback" not in res:
@@ -238,7 +251,7 @@ def check(prop, tier="quick", seed=0, procs=16, n_sessions=None, budget_s=None, 
     prof = handlers.profile(prop)
     sessions = n_sessions or getattr(prof, "SESSIONS", {"quick": 200, "thorough": 2000})[tier]
     budget_s = budget_s or getattr(prof, "BUDGET_S", {"quick": 100, "thorough": 1200})[tier]
-    cap_s = cap_s or getattr(prof, "CAP_S", {"quick": 90, "thorough": 240})[tier]
+    cap_s = cap_s or getattr(prof, "CAP_S", {"quick": 240, "thorough": 480})[tier]
     known = load_known()
     t0 = time.time()
     viol_new = []
@@ -319,9 +332,15 @@ def check(prop, tier="quick", seed=0, procs=16, n_sessions=None, budget_s=None, 
     print("%s tier=%s seed=%d sessions=%d ok=%d violations=%d known=%d harness_errors=%d skipped=%d wall=%.1fs" % (
         prop, tier, seed, len(results), n_ok, len(viol_new), sum(len(v) for v in viol_known.values()), len(harness),
         sum(1 for r in results if r.get("verdict") == "skip"), wall))
+    n_wall = sum(1 for r in results if r.get("verdict") == "wall_timeout")
+    if n_wall:
+        print("note: %d of %d sessions hit the wall-clock backstop (inconclusive, not counted as held)" % (n_wall, len(results)))
     if viol_new:
         return 1
     if harness:
+        return 3
+    if not results or n_wall > max(2, len(results) // 4):
+        print("HARNESS-ERROR too few conclusive sessions (%d wall timeouts of %d)" % (n_wall, len(results)))
         return 3
     return 0
 
@@ -426,6 +445,7 @@ def build_evidence(prop, tier, seed, results, wall, viol_new, viol_known, harnes
         "counters": counters,
         "indeterminate": indeterminate,
         "skipped": sum(1 for r in results if r.get("verdict") == "skip"),
+        "wall_timeouts_inconclusive": sum(1 for r in results if r.get("verdict") == "wall_timeout"),
         "harness_errors": len(harness),
         "known_findings_hit": {k: len(v) for k, v in viol_known.items()},
         "stopped_early_by_budget": stopped_early,
